@@ -3,6 +3,8 @@ package main
 import (
 	"fmt"
 	"sort"
+	"strings"
+	"time"
 
 	"github.com/openconfig/goyang/pkg/yang"
 )
@@ -47,5 +49,68 @@ func init() {
 			return fmt.Errorf("[a, a@2020]: %s; [a@2020, a]: %s", d1, d2)
 		}
 		return nil
+	})
+}
+
+func init() {
+	reg("incremental-orphan-submodule-identity-values", "C18: an older revision of a submodule that is no longer included does not keep the identity value lists of an earlier run", func() error {
+		m := "module m { namespace \"urn:m\"; prefix m; include s; }"
+		s0 := "submodule s { belongs-to m { prefix m; } revision 2000-01-01; identity root; identity kid { base root; } }"
+		s1 := "submodule s { belongs-to m { prefix m; } revision 2001-01-01; identity root; identity kid { base root; } }"
+		values := func(ms *yang.Modules) int {
+			sub := ms.SubModules["s@2000-01-01"]
+			if sub == nil {
+				return -1
+			}
+			n := 0
+			for _, i := range sub.Identities() {
+				n += len(i.Values)
+			}
+			return n
+		}
+		batch, errs := mustLoadProcess(m, s0, s1)
+		if len(errs) > 0 {
+			return fmt.Errorf("batch: %v", errs)
+		}
+		inc, errs := mustLoadProcess(m, s0)
+		if len(errs) > 0 {
+			return fmt.Errorf("incremental run 1: %v", errs)
+		}
+		if err := inc.Parse(s1, "s1.yang"); err != nil {
+			return err
+		}
+		if errs := inc.Process(); len(errs) > 0 {
+			return fmt.Errorf("incremental run 2: %v", errs)
+		}
+		if b, i := values(batch), values(inc); b != i {
+			return fmt.Errorf("value-list entries on the identities of s@2000-01-01: batch %d, incremental %d", b, i)
+		}
+		return nil
+	})
+}
+
+func init() {
+	reg("union-typedef-chain-error-doubling", "C01: a chain of typedefs whose unions name the previous typedef twice, over an unknown base, is resolved in time linear in its depth", func() error {
+		var b strings.Builder
+		b.WriteString("module m { namespace \"urn:m\"; prefix m; typedef t0 { type no-such-type; }\n")
+		const depth = 60
+		for i := 1; i <= depth; i++ {
+			fmt.Fprintf(&b, "typedef t%d { type union { type t%d; type t%d; } }\n", i, i-1, i-1)
+		}
+		fmt.Fprintf(&b, "leaf l { type t%d; } }", depth)
+		done := make(chan []error, 1)
+		go func() {
+			_, errs := mustLoadProcess(b.String())
+			done <- errs
+		}()
+		select {
+		case errs := <-done:
+			if len(errs) == 0 {
+				return fmt.Errorf("no error for the unknown base type")
+			}
+			return nil
+		case <-time.After(8 * time.Second):
+			return fmt.Errorf("Process did not return within 8 s for a chain of depth %d (the error list doubles at every level)", depth)
+		}
 	})
 }
